@@ -47,6 +47,7 @@ def run_shard(pid, tier, seed, shard, nshards, partial_path, replay=None):
         run.level = getattr(mod, "LEVEL", "exploration")
         run.rule = getattr(mod, "RULE", "")
         run.assumptions = list(getattr(mod, "ASSUMPTIONS", []))
+        guard_executors(mod, core)
         if replay is not None:
             run.replay_mode = True
             rec = json.loads(Path(replay).read_text())
@@ -60,6 +61,47 @@ def run_shard(pid, tier, seed, shard, nshards, partial_path, replay=None):
         run.inconclusive.append("harness error in shard %d: %s" %
                                 (shard, traceback.format_exc()[-1500:]))
     Path(partial_path).write_text(json.dumps(run.partial()))
+
+
+def guard_executors(mod, core):
+    """
+    Wrap every executor of the property module: an exception that escapes from evo's own code
+    while a case is monitored is an observed failure of the code under test (reported as a
+    violation with the case as witness); an exception raised by the harness itself propagates
+    and makes the run inconclusive.
+    """
+    import functools
+    import traceback as tb
+    repo_evo = os.path.join(str(core.REPO), "evo") + os.sep
+
+    def guard(fn):
+        @functools.wraps(fn)
+        def w(run, case):
+            try:
+                return fn(run, case)
+            except core.Inconclusive:
+                raise
+            except Exception as e:
+                frames = tb.extract_tb(e.__traceback__)
+                evo_frames = [f for f in frames if os.path.abspath(f.filename).startswith(repo_evo)]
+                if not evo_frames:
+                    raise
+                last = evo_frames[-1]
+                run.violation("evo-raised:%s in %s" % (type(e).__name__, last.name),
+                              "evo raised %s: %s (at %s:%d in %s) while the case was monitored" %
+                              (type(e).__name__, str(e)[:300], os.path.basename(last.filename), last.lineno,
+                               last.name), case, traceback="".join(tb.format_tb(e.__traceback__))[-1200:])
+        w._guarded = True
+        return w
+
+    for name, fn in list(mod.KINDS.items()):
+        if getattr(fn, "_guarded", False):
+            continue
+        g = guard(fn)
+        mod.KINDS[name] = g
+        for attr, val in list(vars(mod).items()):
+            if val is fn:
+                setattr(mod, attr, g)
 
 
 def main(argv):
